@@ -126,6 +126,8 @@ RCP<const Basic> Parser::functionify(const std::string &name, vec_basic &params)
             {"uppergamma", uppergamma},
             {"polygamma", polygamma},
             {"kronecker_delta", kronecker_delta},
+            // the name the string printer uses
+            {"kroneckerdelta", kronecker_delta},
             {"atan2", atan2},
         };
 
@@ -135,6 +137,8 @@ RCP<const Basic> Parser::functionify(const std::string &name, vec_basic &params)
             {"max", max},
             {"min", min},
             {"levi_civita", levi_civita},
+            // the name the string printer uses
+            {"levicivita", levi_civita},
         };
 
     const static std::map<
